@@ -414,7 +414,8 @@ def cli_part(chk, scratch, n_pairs):
     from pyfaidx import Fasta
 
     def one(i):
-        d = os.path.join(scratch, "cli%d" % i)
+        # (every third pair works in a folder whose name has characters that are special in glob patterns: saved prefixes are looked up by pattern)
+        d = os.path.join(scratch, "cli%d%s" % (i, "[1]" if i % 3 == 2 else ""))
         os.makedirs(d)
         seed = chk.seed * 100 + i
         if i % 2 == 1:
@@ -514,7 +515,7 @@ def cli_part(chk, scratch, n_pairs):
             import glob
             import hashlib
             aux = os.path.join(d, "o1", "SMP", "aux")
-            before = {p: hashlib.sha256(open(p, "rb").read()).hexdigest() for p in glob.glob(os.path.join(aux, "SMP.save*")) if not p.endswith(("_lock", "_processed"))}
+            before = {p: hashlib.sha256(open(p, "rb").read()).hexdigest() for p in glob.glob(os.path.join(glob.escape(aux), "SMP.save*")) if not p.endswith(("_lock", "_processed"))}
             r2 = runner.run_isoquant(["-o", os.path.join(d, "o2"), "--read_assignments", os.path.join(d, "o1", "SMP", "aux", "SMP.save"),
                                       "-p", "SMP"] + opts, home)
             after = {p: (hashlib.sha256(open(p, "rb").read()).hexdigest() if os.path.exists(p) else None) for p in before}
